@@ -53,8 +53,9 @@ import Thanos.Model.Rewrite
       cfg    = x (missing) | file          dirs = dir{/dir} | -      dir = file{,file} | e (empty dir)
       watched = file{,file} | -            file = hexname:hexraw:plain
       plain  = "=" (not gzipped: the text is raw) | ! (broken gzip stream) | hextext (what gunzip gives)
+               | @ (the entry is a dangling symlink; raw is "-"; only in config / watched directories)
       env    = hexname=hexvalue{,…} | -    script = a word of 1/0: answers of the reload endpoint, in order
-      answer = res;outs      res = ok<requests> | err:missing | err:gzip | err:env:<hexname>
+      answer = res;outs      res = ok<requests> | err:missing | err:gzip | err:stat | err:env:<hexname>
       outs   = path=hexcontent{,…} sorted by path | -     path = out | <dir index>/<hexname>
 
   C48
@@ -276,6 +277,10 @@ def parseFile (s : String) : Option File :=
   match splitChar ':' s with
   | [n, raw, pl] => do
     let _ ← hexDecode? raw
+    if pl = "@" then
+      -- a dangling symlink: no content at all
+      if raw = "-" then pure { name := n, raw := raw, plain := none, dangling := true } else none
+    else
     let plain ← if pl = "=" then (hexString? raw).map some
                 else if pl = "!" then some none
                 else (hexString? pl).map some
@@ -324,6 +329,7 @@ def showRes : Res → String
   | .ok n => s!"ok{n}"
   | .err .missing => "err:missing"
   | .err .gzip => "err:gzip"
+  | .err .stat => "err:stat"
   | .err (.env n) => "err:env:" ++ hexS n
 
 def showKey : Key → String
